@@ -574,7 +574,17 @@ def _run_maskonly(res, item):
         b = RandomDecision(seed=rs)
         da, ea = _call_batch(a, rew.copy(), vis.copy())
         db, eb = _call_batch(b, rew.copy(), vis.copy())
-        res.observe(da)
+        # (the drawn targets are deliberately not fed to the determinism digest: an unseeded generator must surface as
+        # the reproducibility violation below, not as a harness error)
+        same_seq = (da == db).reshape(n, -1).all(axis=1)
+        first_diff = int(np.argmin(same_seq)) if not same_seq.all() else None
+        # one elemental case per (seed, input sequence): two generators with equal seeds draw the same decisions
+        res.case("random/reproducible_for_equal_seed", {"policy": "random", "rng_seed": rs, "T": t, "S": s, "chunk": [c0, c1]},
+                 first_diff is None, nontrivial=bool(mixed.any()), signature="C07/random/not_reproducible",
+                 observed=None if first_diff is None else {"first_differing_mask": int(c[first_diff]),
+                                                           "factory_instance": da[first_diff].tolist(),
+                                                           "direct_instance": db[first_diff].tolist()},
+                 expected="identical decision sequences", item=item)
         colcnt = da.sum(axis=1)  # (n,S)
         want = vis.any(axis=1).astype(int)
         for i in range(n):
@@ -592,10 +602,6 @@ def _run_maskonly(res, item):
             res.case("random/one_if_any_visible", case, bool((colcnt[i] == want[i]).all()), nontrivial=bool(mixed[i]),
                      signature="C07/random/sensor_with_visible_target_idle_or_blind_sensor_tasked",
                      observed=colcnt[i].tolist(), expected=want[i].tolist(), outcome=f"tasked={int(da[i].sum())}", item=it)
-            # reproducibility depends on the call history of the generator: replay item = the prefix of the chunk
-            res.case("random/reproducible_for_equal_seed", case, bool((da[i] == db[i]).all()),
-                     signature="C07/random/not_reproducible", observed=[da[i].tolist(), db[i].tolist()],
-                     item=("maskonly", t, s, seed, c0, int(c[i]) + 1))
     if t >= 2 and n >= 64:
         # the seed is used: another seed gives a different decision sequence on this chunk
         other, _ = _call_batch(RandomDecision(seed=seed + 1), rew.copy(), vis.copy())
@@ -1237,7 +1243,7 @@ def _run_engine(res, item):
                          signature=f"C07/engine/{pol}/decision_column", observed=got_d.tolist(),
                          expected="policy reference on the stored reward/visibility columns",
                          outcome=f"tasked={int(got_d.sum())}", item=item)
-                res.observe(got_r, got_d)
+                res.observe(got_r, got_d if pol != "random" else None)  # random draws: see _run_maskonly
 
 
 
@@ -1332,7 +1338,8 @@ def _run_scenario(res, item):
                  nontrivial=mixed, signature=f"C07/scenario/{pol}/decision_column", observed=dec.tolist(),
                  expected="policy reference on the stored reward / visibility columns",
                  outcome=f"visible={int(vis.sum())},tasked={int(dec.sum())},negative_rewards={int((rew < 0).sum() > 0)}", item=item)
-        res.observe(vis, dec, np.round(rew, 9))
+        if pol != "random":  # later steps of a random-policy run depend on the draws; reproducibility is checked in _run_maskonly
+            res.observe(vis, dec, np.round(rew, 9))
 
 
 # ------------------------------------------------------------------------------------------------ dispatch
